@@ -4,6 +4,7 @@ import GB.C10.CreateStatus
 import GB.C10.OptionsProofs
 import GB.C10.FwdRules
 import GB.C10.StreamWitness
+import GB.C10.RespPathProofs
 import GB.C09.Props
 import GB.Generated.Facts
 /-
@@ -1034,3 +1035,191 @@ example :
 
 /-- An unsupported Content-Type exists: `img/png`. -/
 example : negotiatedReq registry [some (ascii "img/png")] = none := by decide
+
+/-! ## `response_body` on NESTED response messages (GB/C10/RespPath.lean, round 5)
+
+  `RP.traverse` = `traverseFieldPath` as coded (the `strings.Cut` loop, statement by statement) on message types with
+  scalar / repeated / map fields, singular, repeated and map-of sub-messages; `RP.respond` = what
+  `standardResponseTranscoder.Transcode` renders (scalar, list and map-of-scalar selections through GB.C09's field codec,
+  message-valued selections through protojson = parameter `REnv.msgJson`). `RP.specSelect` = the specification: the
+  elements of `strings.Split(path, ".")`, all but the last naming singular sub-message fields (`RP.descAt`), the last
+  naming the field. Tie: harness op `rb` (run-time built nested schemas, real StandardTranscoder). -/
+
+/-- **The coded loop resolves exactly the field the dotted path names**, for every schema and every path on which the
+    specification speaks ("" / "*" = whole message; non-empty field names): same selection, same errors. -/
+theorem C10_response_body_path_resolution (sch : RP.RSchema) (root : RP.RDesc) (path : Bytes)
+    (r : Option (Option (RP.Path × RP.RField))) (h : RP.specSelect sch root path = some r) :
+    RP.traverse sch root path = r :=
+  RP.traverse_meets_spec sch root path r h
+
+/-- **Never a different field**: a resolved path selects the field whose proto names from the root are literally the
+    elements of the path — `pre ++ [fd.name] = Split(path, ".")` — every element before the last being a singular
+    sub-message field of the message type reached so far, and `fd` the field of that name in the last one. -/
+theorem C10_response_body_addresses_named_field (sch : RP.RSchema) (root : RP.RDesc) (path : Bytes) (pre : RP.Path) (fd : RP.RField)
+    (h : RP.specSelect sch root path = some (some (some (pre, fd)))) :
+    RP.traverse sch root path = some (some (pre, fd)) ∧ pre ++ [fd.name] = RP.splitDots path ∧
+    ∃ md', RP.descAt sch root pre = some md' ∧ md'.byName fd.name = some fd := by
+  refine ⟨RP.traverse_meets_spec sch root path _ h, ?_⟩
+  unfold RP.specSelect at h
+  by_cases hw : (path == [] || path == [42]) = true
+  · rw [if_pos hw] at h; cases h
+  · rw [if_neg hw] at h
+    by_cases hany : (RP.splitDots path).any (fun e => e == []) = true
+    · rw [if_pos hany] at h; cases h
+    · rw [if_neg hany] at h
+      have hres : RP.resolveEls sch root [] (RP.splitDots path) = some (pre, fd) := by
+        cases hr : RP.resolveEls sch root [] (RP.splitDots path) with
+        | none => rw [hr] at h; cases h
+        | some x => rw [hr] at h; simp at h; rw [h]
+      obtain ⟨md', last, hl, hd, hb, hp, hfull⟩ := RP.resolveEls_sound sch _ root [] pre fd hres
+      simp only [List.nil_append] at hp hfull
+      refine ⟨hfull, md', ?_, ?_⟩
+      · rw [hp]; exact hd
+      · rw [(RP.byName_name hb).1]; exact hb
+
+/-- **The rendered body is exactly the JSON of the addressed sub-value**: a scalar / repeated / map-of-scalar field
+    is rendered by the C09 field codec on the value the message holds at that very path (an unset field reads as its
+    default), a message-valued field by protojson on the value at that very path; a value the marshaler refuses ⇒
+    Internal. Nothing else of the message is looked at. -/
+theorem C10_response_body_renders_addressed_value (ops : GB.C09.FloatOps) (sch : RP.RSchema) (root : RP.RDesc) (env : RP.REnv)
+    (m : RP.RMsg) (path : Bytes) (pre : RP.Path) (fd : RP.RField)
+    (h : RP.specSelect sch root path = some (some (some (pre, fd)))) :
+    RP.respond ops sch root env m path =
+      match (match fd.ty with
+        | .leaf c k => GB.C09.encode ops RP.rpOpts k (RP.fieldValue m (pre ++ [fd.name]) c)
+        | _ => env.msgJson (pre ++ [fd.name])) with
+      | .ok j => .body j
+      | _ => .internal := by
+  unfold RP.respond
+  rw [RP.traverse_meets_spec sch root path _ h]
+  simp only [RP.renderSel]
+  cases fd.ty <;> rfl
+
+/-- the whole message ("" or "*") is rendered by protojson on the response itself -/
+theorem C10_response_body_whole (ops : GB.C09.FloatOps) (sch : RP.RSchema) (root : RP.RDesc) (env : RP.REnv) (m : RP.RMsg)
+    (path : Bytes) (h : path = [] ∨ path = [42]) :
+    RP.respond ops sch root env m path = match env.msgJson [] with
+      | .ok j => .body j
+      | _ => .internal := by
+  rcases h with rfl | rfl <;> rfl
+
+/-- **A path that does not resolve is an Internal error** (bad binding), whatever the response message holds:
+    unknown field name (JSON names are not accepted), or … -/
+theorem C10_response_body_invalid_path_internal (ops : GB.C09.FloatOps) (sch : RP.RSchema) (root : RP.RDesc) (env : RP.REnv)
+    (m : RP.RMsg) (path : Bytes) (h : RP.specSelect sch root path = some none) :
+    RP.respond ops sch root env m path = .internal := by
+  unfold RP.respond
+  rw [RP.traverse_meets_spec sch root path _ h]
+
+/-- … **a path that continues after a scalar, a repeated or a map field** (of scalars or of messages): the code
+    returns the error "… is not a message" — it never descends into an element or an entry. -/
+theorem C10_response_body_through_repeated_or_map_unresolved (sch : RP.RSchema) (md : RP.RDesc) (pre : RP.Path)
+    (e e2 : Bytes) (rest : List Bytes) (fd : RP.RField) (hb : md.byName e = some fd) (hty : ∀ ref, fd.ty ≠ .msg ref) :
+    RP.resolveEls sch md pre (e :: e2 :: rest) = none :=
+  RP.resolveEls_through_non_message sch md pre e e2 rest fd hb hty
+
+/-- **A path through an UNSET sub-message renders the default of the addressed field** — for every well-formed
+    response message (populated paths have populated parents): if some sub-message on the way is not set, the body is
+    the C09 encoding of the field's default (`0`, `""`, `false`, `[]`, `{}`), never another field's value. -/
+theorem C10_response_body_unset_intermediate_default (ops : GB.C09.FloatOps) (sch : RP.RSchema) (root : RP.RDesc) (env : RP.REnv)
+    (m : RP.RMsg) (path : Bytes) (pre : RP.Path) (fd : RP.RField) (c : GB.C09.Card) (k : GB.C09.Kind)
+    (h : RP.specSelect sch root path = some (some (some (pre, fd)))) (hty : fd.ty = .leaf c k)
+    (hwf : RP.WFMsg m) (i : Nat) (hi : 0 < i) (hle : i ≤ pre.length) (hunset : RP.RMsg.get m (pre.take i) = none) :
+    RP.respond ops sch root env m path =
+      match GB.C09.encode ops RP.rpOpts k (RP.defaultField c) with
+      | .ok j => .body j
+      | _ => .internal := by
+  rw [C10_response_body_renders_addressed_value ops sch root env m path pre fd h, hty]
+  simp only [RP.fieldValue, RP.get_none_below_unset m hwf pre fd.name i hi hle hunset]
+
+/-- **The transcoder laws for scalar / list / map response bodies, PROVED from C09** (the laws `C10_success` leaves to
+    the parameter `Env.msgEnc`): for a `response_body` path that resolves to a scalar, repeated or map-of-scalar field
+    holding a value of the field's type, (success) the transcoder succeeds, (decode-back) decoding the body into a fresh
+    message makes the field read back exactly the addressed value (`C09_roundtrip`), (non-empty) the body text is not
+    empty and is read back as the same tree (tokenizer = environment, as in `C10_status_body_roundtrip_no_details`). -/
+theorem C10_response_body_leaf_laws (ops : GB.C09.FloatOps) (hl : GB.C09.FloatLaws ops) (tk : Tokenizer)
+    (sch : RP.RSchema) (root : RP.RDesc) (env : RP.REnv) (m : RP.RMsg) (path : Bytes) (pre : RP.Path) (fd : RP.RField)
+    (c : GB.C09.Card) (k : GB.C09.Kind)
+    (h : RP.specSelect sch root path = some (some (some (pre, fd)))) (hty : fd.ty = .leaf c k)
+    (hn : GB.C09.EnumNamesUnique k) (ht : GB.C09.FieldTyped c k (RP.fieldValue m (pre ++ [fd.name]) c)) :
+    ∃ j, RP.respond ops sch root env m path = .body j
+      ∧ (∃ g, GB.C09.decode ops RP.rpOpts c k j = .ok g ∧ g.read k = (RP.fieldValue m (pre ++ [fd.name]) c).read k)
+      ∧ tk.print j ≠ [] ∧ tk.parse (tk.print j) = some j := by
+  obtain ⟨j, hj, g, hg, hr⟩ := C09_roundtrip ops hl RP.rpOpts c k _ hn ht
+  refine ⟨j, ?_, ⟨g, hg, hr⟩, tk.nonempty j, tk.roundtrip j⟩
+  rw [C10_response_body_renders_addressed_value ops sch root env m path pre fd h, hty]
+  simp only [hj]
+
+/-- the default value of every kind and cardinality is a value of the field's type, so the laws hold in particular
+    for unset fields and for fields below unset sub-messages -/
+theorem C10_response_body_default_typed (m : RP.RMsg) (p : RP.Path) (c : GB.C09.Card) (k : GB.C09.Kind)
+    (hkey : ∀ kk, c = .map kk → GB.C09.isKeyKind kk = true) (hunset : RP.RMsg.get m p = none) :
+    GB.C09.FieldTyped c k (RP.fieldValue m p c) := by
+  simp only [RP.fieldValue, hunset]
+  cases c with
+  | sing => simp [RP.defaultField, GB.C09.FieldTyped]
+  | rep => simp [RP.defaultField, GB.C09.FieldTyped]
+  | map kk => simp [RP.defaultField, GB.C09.FieldTyped, hkey kk rfl, GB.C09.keysUnique]
+
+def rpExRoot : RP.RDesc := [⟨[115, 117, 98], .msg 1⟩, ⟨[105, 100], .leaf .sing .int32⟩]
+def rpExSch : RP.RSchema := [rpExRoot, [⟨[118, 97, 108], .leaf .sing .string⟩, ⟨[105, 116, 101, 109, 115], .repMsg 1⟩]]
+
+/-- non-vacuity (kernel-evaluated): R { S sub = 1; int32 id = 2 }, S { string val = 1; repeated S items = 2 };
+    `sub.val` on the empty response resolves below the unset `sub` and renders `""`; `sub.items.val` is Internal;
+    `subVal`-style / unknown names are Internal; "sub." (one trailing dot) is read as "sub" by the code and left
+    unspecified by the specification. -/
+example :
+    (RP.specSelect rpExSch rpExRoot (ascii "sub.val")).isSome = true
+    ∧ (RP.traverse rpExSch rpExRoot (ascii "sub.val")).isSome = true
+    ∧ (RP.specSelect rpExSch rpExRoot (ascii "sub.items.val")).map Option.isSome = some false
+    ∧ (RP.specSelect rpExSch rpExRoot (ascii "nope")).map Option.isSome = some false
+    ∧ (RP.specSelect rpExSch rpExRoot (ascii "sub.")).isSome = false
+    ∧ (RP.traverse rpExSch rpExRoot (ascii "sub.")).isSome = true
+    ∧ (RP.traverse rpExSch rpExRoot (ascii "sub..val")).isSome = false := by
+  decide
+
+/-- facts tie for `response_body` selection (extract/c10.go, go/ast over transcoding/http.go, regenerated on every run):
+    `traverseFieldPath` looks fields up with `ByName` only (proto names; no `ByJSONName`), refuses to continue after
+    `fd.Message() == nil || fd.Cardinality() == protoreflect.Repeated` (scalar, repeated and map fields — `RP.walk`'s
+    "only `.msg`" branch), descends with `msg.Mutable(fd).Message()` only; `standardResponseTranscoder.transcodeFunc`
+    hands exactly the walk's `msg, fd` to the marshal callback (`f(msg, fd)`; `f(protomsg.ProtoReflect(), nil)` for a
+    Status) and assigns `msg` / `fd` once — nothing re-targets the selection after the walk. -/
+theorem C10_facts_response_body_selection :
+    GB.Generated.c10TraverseLookups = ["ByName"] ∧
+    GB.Generated.c10TraverseNotMessageCond = "fd.Message() == nil || fd.Cardinality() == protoreflect.Repeated" ∧
+    GB.Generated.c10TraverseDescend = ["msg.Mutable(fd).Message()"] ∧
+    GB.Generated.c10RespTranscodeCalls =
+      ["f(protomsg.ProtoReflect(), nil)", "traverseFieldPath(protomsg.ProtoReflect(), t.req.Binding.ResponseBodyPath)", "f(msg, fd)"] ∧
+    GB.Generated.c10RespTranscodeAssigns = [("fd", 1), ("msg", 1)] := by
+  decide
+
+/-- **The flat `response_body` model of the end-to-end scenarios is the nested model on a flat message type**: for every
+    message type all of whose fields are scalar (singular / repeated / map of scalars), `GB.C10.traverseFieldPath` — the
+    selection `C10_success` speaks about — is `RP.traverse` followed by forgetting the (empty) sub-message path. -/
+theorem C10_response_body_flat_agrees (sch : RP.RSchema) (root : RP.RDesc)
+    (hflat : ∀ f ∈ root, ∃ c k, f.ty = .leaf c k) (path : Bytes) :
+    traverseFieldPath (root.map (·.name)) path =
+      (RP.traverse sch root path).map (fun sel => match sel with
+        | none => Selected.whole
+        | some (_, fd) => Selected.field fd.name) :=
+  RP.traverse_flat sch root hflat path
+
+/-- the response type of the e2e scenarios (google.rpc.ResourceInfo: four string fields) as a nested-model descriptor -/
+def respFieldsDesc : RP.RDesc := respFields.map (fun n => ⟨n, .leaf .sing .string⟩)
+
+/-- … in particular the selection in `C10_success` / `C10_stream_lts_refines_serve` (`traverseFieldPath respFields sc.rbp`)
+    is the nested model's, so `C10_response_body_*` (addressed field, rendered value, laws from C09) apply to it. -/
+theorem C10_success_selection_is_nested_model (path : Bytes) :
+    traverseFieldPath respFields path =
+      (RP.traverse [respFieldsDesc] respFieldsDesc path).map (fun sel => match sel with
+        | none => Selected.whole
+        | some (_, fd) => Selected.field fd.name) := by
+  have h := RP.traverse_flat [respFieldsDesc] respFieldsDesc (by
+    intro f hf
+    simp only [respFieldsDesc, List.mem_map] at hf
+    obtain ⟨n, _, rfl⟩ := hf
+    exact ⟨.sing, .string, rfl⟩) path
+  have hn : respFieldsDesc.map (·.name) = respFields := by
+    simp [respFieldsDesc, List.map_map, Function.comp_def]
+  rw [hn] at h
+  exact h
